@@ -1,6 +1,3 @@
 /- The 128-bit vector back end of Skinny-64 parallel ECB: all lemmas (see `Vec64Base`) -/
 import SkinnyVerif.Lemmas.Vec64Round
-import SkinnyVerif.Lemmas.Vec64LoadE
-import SkinnyVerif.Lemmas.Vec64LoadD
-import SkinnyVerif.Lemmas.Vec64StoreE
-import SkinnyVerif.Lemmas.Vec64StoreD
+import SkinnyVerif.Lemmas.Vec64LoadStore
